@@ -25,6 +25,14 @@ CHECKS = {
   text="Same model and run as C01, judged on data: the decoded tree (keys, nesting, order, table flags and positions, every scalar's exact value, floats by bit pattern, date-times field by field) of the implementation is compared with the model's tree, with the generator's intended tree (an independent reference: the generator knows what it meant to write, floats through an exact-rational IEEE rounding), and across toml_edit / toml::Table / slice routes. Theorems: string decoding for every written spelling (from C10), integer and date-time value theorems (C11, C12), Spec.Ieee as the float meaning.",
   note="Trusted: as C01; Rust's str::parse::<f64> is cross-checked against Spec.Ieee on every generated float. Key order of implicit-then-explicit tables compared up to permutation (convention K2).",
   technique="Lean 4 model + value theorems + generator-as-reference + differential correspondence", design="7/C02"),
+ "C05": dict(
+  text="Lean 4 model of the recursion accounting (RecursionCheck counter threaded through value/array/inline-table, the dotted-key charge added by the F9 repair, check_depth on key paths); theorems in Props/C05.lean (guards at the limit; depth bound d + nest v < LIMIT for every accepted value by mutual induction on fuel; key paths shorter than LIMIT; single constructs below the limit accepted). LIMIT is regenerated from /repo and re-proved = 80. The model's verdict and decoded nesting depth are compared with the implementation on documents built from the five nesting constructs singly (depth 1..500) and in every pairwise multiplicative/additive combination around the limit; each accepted document is then parsed, printed, debug-printed, converted, cloned, dropped and deserialized on a 2 MiB thread in a debug and a release build (the part no model can exhibit): a dead worker is a violation with the document as replay.",
+  note="Trusted: Lean kernel, translate.py, sampling correspondence. Real stack use per frame is observed, not proved. Depth bound checked on the implementation: 3*LIMIT.",
+  technique="Lean 4 proof (depth invariant by mutual induction) + differential correspondence + 2 MiB stack experiment", design="7/C05"),
+ "C09": dict(
+  text="Lean 4 model of ParseState (descend_path, on_keyval, start_table, start_array_table, finalize_table) over an explicit tree with implicit/dotted flags; theorems in Props/C09.lean proved for every statement history: a key/value is inserted only into a vacant slot, every value defined earlier stays defined and unchanged (whole-run monotonicity T09_run over indexed paths), duplicates / extending a value / reopening explicit, dotted or array tables / dotted keys reaching into arrays of tables are rejected. Correspondence and search: every sequence of up to 3 statements (thorough: 4) from {[p], [[p]], p = 1, p = {q = 1}, p = {q.r = 1}, p = []} over 9 paths on a 2-letter alphabet with random bare/basic/literal spellings, enumerated exhaustively, plus random longer sequences on 3 letters: three-way comparison implementation vs model vs an independent formulation of the definition rules (tools/defrules.py: flat path->kind map written from the prose); class U1 is skipped and counted.",
+  note="Trusted: Lean kernel, sampling correspondence beyond the enumerated scope, tools/defrules.py as the reading of the specification's prose (DESIGN.md section 3.3), indexmap modelled as an association list.",
+  technique="Lean 4 proof (invariant over statement histories) + exhaustive small-scope three-way comparison", design="7/C09"),
 }
 
 NA = {}
